@@ -1,7 +1,7 @@
 (* C07 / C08 evaluated on the implementation's output: every retired state of the real VM against the
    reference EVM along the path the model assigns to that state (ghost `tpath`). *)
 From Coq Require Import String.
-From SLX Require Import Base gen.Constants gen.ValueSig gen.OpcodeTable SymVal Disasm Word256 EvmSpec Evm VM Sim QuickFold VmCases.
+From SLX Require Import Base gen.Constants gen.ValueSig gen.OpcodeTable SymVal Disasm Word256 EvmSpec Evm VM Sim VmCases.
 Open Scope N_scope.
 
 Definition efuel (bytes : list byte) : nat := (4 * length bytes + 16)%nat.
